@@ -13,7 +13,12 @@ RULE = ("vget: every slice with start, stop in {None,-7..7} and step in {None,±
         "~v on every vector over {True, False, None} up to length 4 (None an ordinary operand of Python's `not`), scalar results "
         "taken from Python; tget: string keys (exact, case variants, sanitised base, base__idx, col<idx>_, missing), name tuples to "
         "length 3 with repeats and missing names, row slices/masks/int/int-Vector keys and the 2-D forms on five name layouts x 0..3 "
-        "rows; tcomm: t[rows][names] versus t[names][rows]. non-trivial = the key selects a proper, non-empty part, or raises, or "
+        "rows; tcomm: t[rows][names] versus t[names][rows]; states (_gen_states, yielded first): the vget keys on vectors whose dtype is "
+        "DECLARED wider than the contents (nullable without None, object over one kind), that were indexed/fingerprinted and then "
+        "overwritten in place, that are live column views or row-displayed twins, with key Vectors that carry a name or a nullable "
+        "dtype, the same on vectors of 65/300/1001 elements; comparisons with iterable scalars (multi-character str, bytes, bytearray, "
+        "also of the vector's own length) and with range operands on either side, on declared-wider and in-place-promoted (int->float) "
+        "vectors; tables indexed by their OWN live bool/int columns and by named key Vectors. non-trivial = the key selects a proper, non-empty part, or raises, or "
         "a comparison involves None / a True and a False result, or a name resolves through a sanitised form / is repeated / missing")
 ASSUMPTIONS = ["vectors are 1-D and tables are 2-D with at least one column (nested vectors/tables are not modelled)",
                "slice members and subscripts are None or exact ints/bools (objects with __index__ are not modelled)",
@@ -32,7 +37,10 @@ VALS = [None, True, False, 0, 1, 2, 3, -1, 10, 11, 12, 13, 14, 15,          # 0.
         D(2020, 1, 1), D(2021, 6, 1), DT(2020, 1, 1, 0, 0), b"a", (1, 2), 1 + 2j,    # 26..31
         DT(2020, 1, 1, 5, 30),                                                     # 32
         # ints and floats that are equal only after rounding (Python compares int with float exactly), an int beyond float range
-        2.0 ** 53, 2 ** 53 + 1, 2 ** 53, 1e16, 10 ** 16 + 1, 10 ** 400, float("inf"), -0.0]   # 33..40
+        2.0 ** 53, 2 ** 53 + 1, 2 ** 53, 1e16, 10 ** 16 + 1, 10 ** 400, float("inf"), -0.0,   # 33..40
+        # scalars that are themselves iterable-with-a-length (a comparison must take them as ONE value, never spread them over the
+        # positions), and the items they would spread into
+        "ab", b"ab", bytearray(b"ab"), 97, 98, b"b", "abc"]                           # 41..47
 IX = {"int": [8, 9, 10, 11, 12, 13], "intn": [8, 0, 10, 0, 12, 13], "str": [19, 20, 21, 24, 25, 23],
       "strn": [0, 19, 0, 21, 24, 25], "float": [14, 15, 16, 17, 14, 15], "dup": [4, 4, 5, 4, 5, 5],
       "bool": [1, 2, 1, 1, 2, 2], "obj": [4, 19, 15, 0, 30, 29], "date": [26, 27, 26, 0, 27, 26], "none": [0, 0, 0, 0, 0, 0]}
@@ -77,10 +85,12 @@ def _in_scope(k):
         es = k["es"]
         if t == "list":
             return bool(es) and (all(type(e) is bool for e in es) or all(type(e) is int for e in es))
+        if k.get("nullable"):
+            return False
         if k.get("dtype") in ("bool", "int"):
             return all(type(e) in (bool, int) for e in es)
         return bool(es) and (all(type(e) is bool for e in es) or all(type(e) is int for e in es))
-    if t == "self":
+    if t in ("self", "col"):
         return True
     return False
 
@@ -141,10 +151,111 @@ def _warm_variants(rng, spec):
 
 
 def generate(rng, tier):
+    yield from _gen_states(rng, tier)       # small and scripted: first, so that a budget stop under load never drops it
     for spec in _generate(rng, tier):
         yield spec
         if spec.get("fam") == "vget" and spec.get("key", {}).get("t") == "vec" and rng.random() < 0.3:
             yield from _warm_variants(rng, spec)
+
+
+# pools whose elements all have one kind (a dtype can be DECLARED for them), with that kind
+DECL_KIND = {"int": "int", "dup": "int", "intn": "int", "strn": "str", "str": "str", "float": "float", "bool": "bool"}
+
+
+def _state_keys(n):
+    ks = [{"t": "slice", "s": s} for s in ([None, None, None], [1, None, None], [None, None, -1], [0, 0, None], [None, None, 2],
+                                            [-2, None, None], [5, 9, None], [None, -1, None])]
+    ks += [{"t": "int", "i": i} for i in (0, -1, n)]
+    for bits in _masks(n):
+        ks.append({"t": "list", "es": bits})
+        ks.append({"t": "vec", "es": bits, "dtype": "bool"})
+    ks.append({"t": "vec", "es": [True] * (n + 1), "dtype": "bool"})
+    for es in ([0], [n - 1, 0], [-1, -1, 0], [n]):
+        ks.append({"t": "list", "es": es})
+        ks.append({"t": "vec", "es": es, "dtype": "int"})
+    return ks
+
+
+def _gen_states(rng, tier):
+    """the same selections and comparisons on operands in a STATE the plain constructors never produce: a dtype declared wider than
+    the contents (nullable without a None, object over one kind), a vector that was indexed (and fingerprinted) before and then
+    overwritten in place, a live column view of a table, a row-displayed vector, a key vector that carries a name or is declared
+    nullable; a table indexed by one of its OWN live columns; scalars that are iterable (multi-character str, bytes, bytearray)
+    and iterables that are neither list nor tuple (range) as comparison operands"""
+    states = [{"decl": "nullable"}, {"decl": "object"}, {"decl": "object?"}, {"src": "warm", "fp": True}, {"src": "warm", "fp": False},
+              {"src": "view"}, {"src": "row"}, {"kname": "k"}, {"kdecl": "nullable"}]
+    for n in range(0, 5):
+        keys = _state_keys(n)
+        for pool in ("int", "strn", "dup", "float"):
+            for st in states:
+                for k in keys:
+                    if ("kname" in st or "kdecl" in st) and k["t"] != "vec":
+                        continue
+                    spec = dict(_vec(pool, n, "x" if pool != "strn" else None), fam="vget", key=k)
+                    if "decl" in st:
+                        spec["decl"] = [DECL_KIND[pool] if st["decl"] == "nullable" else "object", st["decl"] != "object"]
+                    elif "src" in st:
+                        spec["src"] = dict(st)
+                    elif "kname" in st:
+                        spec["key"] = dict(k, name="k")
+                    else:
+                        spec["key"] = dict(k, nullable=True)
+                    yield spec
+    # long vectors in the same states (a strategy switch by size must not depend on how the vector came about)
+    for n in (65, 300, 1001):
+        for pool in ("int", "strn"):
+            for st in ({"decl": "nullable"}, {"src": "warm", "fp": True}, {"src": "view"}, {}):
+                for k in ({"t": "slice", "s": [None, None, -3]}, {"t": "slice", "s": [n, None, None]}, {"t": "int", "i": -n},
+                          {"t": "vec", "es": [i % 3 == 0 for i in range(n)], "dtype": "bool"},
+                          {"t": "list", "es": [i % 7 == 1 for i in range(n)]},
+                          {"t": "vec", "es": [n - 1, 0, -n, 5], "dtype": "int", "name": "k"}, {"t": "list", "es": [-1, n // 2]}):
+                    spec = dict(_vec(pool, n, "x"), fam="vget", key=k)
+                    if "decl" in st:
+                        spec["decl"] = [DECL_KIND[pool], True]
+                    elif "src" in st:
+                        spec["src"] = dict(st)
+                    yield spec
+    # ---- comparisons with scalars that are iterable: one value, whatever its length (equal to the vector's or not)
+    for op in OPS:
+        for xs in ([19, 20], [41, 41], [44, 45], [44], [19], [42, 46], [45, 0], [41, 47, 19], [43, 43], [4, 5]):
+            for y in (41, 42, 43, 47, 46):
+                for form in ("scalar", "rscalar"):
+                    yield {"fam": "cmp", "op": op, "xs": xs, "other": {"t": form, "ys": [y]}}
+        # ---- range (an iterable with a length that is neither list nor tuple nor Vector) as the other operand, both sides
+        for xs in ([3, 4], [4, 3, 5], [0, 4], [3, 14, 5, 6], [], [1, 2], [16]):
+            for m in sorted({len(xs), max(0, len(xs) - 1), min(4, len(xs) + 1)}):
+                for form in ("range", "rrange"):
+                    yield {"fam": "cmp", "op": op, "xs": xs, "other": {"t": form, "ys": [3, 4, 5, 6, 10][:m]}, "xdtype": "int" if not xs else None}
+    # ---- comparison operands in a state: declared-wider dtype, promoted in place int -> float (elements converted), named
+    for op in OPS:
+        for xs, decl in (([34, 35], ["int", True]), ([34, 4, 0], ["object", True]), ([33, 36], ["float", True]), ([1, 2], ["bool", True]),
+                         ([4, 1, 14], ["object", False])):
+            for form, ys in (("scalar", [33]), ("scalar", [34]), ("vec", [33, 34, 4][:len(xs)]), ("list", [35, 35, 35][:len(xs)]),
+                             ("rscalar", [4]), ("self", [])):
+                yield {"fam": "cmp", "op": op, "xs": xs, "other": {"t": form, "ys": ys or xs}, "xdecl": decl}
+        for xs in ([34, 35], [37, 4]):
+            for form, ys in (("scalar", [34]), ("scalar", [33]), ("vec", [34, 37]), ("rscalar", [37]), ("self", [])):
+                yield {"fam": "cmp", "op": op, "xs": xs, "other": {"t": form, "ys": ys or xs}, "promote": [1, 14]}
+    # ---- a table indexed by one of its OWN live columns (bool column as mask, int column as positions), and by named key vectors
+    for nrows in range(0, 4):
+        own = [{"name": "m", "vals": [1, 2, 1][:nrows]}, {"name": "x", "vals": IX["int"][:nrows]}, {"name": None, "vals": IX["strn"][:nrows]},
+               {"name": "p", "vals": [[3], [4, 3], [4, 3, 7]][max(nrows, 1) - 1][:nrows]}, {"name": "M", "vals": [2, 2, 1][:nrows]}]
+        for cols in (own, own[:2], own[1:4], [own[0]], [own[3]], own[::-1]):
+            for j, c in enumerate(cols):
+                if c["name"] not in ("m", "p", "M"):
+                    continue
+                yield {"fam": "tget", "cols": cols, "key": {"t": "row", "key": {"t": "col", "j": j}}}
+                for names in (["x"], ["m", "x"], ["x", "m", "m"], ["p"], ["M", "p"], ["col2_"], ["zz"]):
+                    yield {"fam": "tcomm", "cols": cols, "rows": {"t": "col", "j": j}, "names": names}
+        for li, layout in enumerate(LAYOUTS):
+            cols = _table(layout, nrows, li)
+            for bits in _masks(nrows):
+                k = {"t": "vec", "es": bits, "dtype": "bool", "name": rng.choice(["k", layout[0] or "k", "zz"])}
+                yield {"fam": "tget", "cols": cols, "key": {"t": "row", "key": k}}
+                yield {"fam": "tcomm", "cols": cols, "rows": k, "names": [x for x in layout if x][:2]}
+            k = {"t": "vec", "es": [nrows - 1, 0], "dtype": "int", "name": "k"}
+            yield {"fam": "tget", "cols": cols, "key": {"t": "row", "key": k}}
+            yield {"fam": "tcomm", "cols": cols, "rows": k, "names": [x for x in layout if x][:1]}
 
 
 def _generate(rng, tier):
@@ -356,12 +467,40 @@ def _generate(rng, tier):
 # execution
 # ------------------------------------------------------------------------------------------------
 
+KINDS = {"int": int, "bool": bool, "str": str, "float": float, "date": D, "object": object}
+_KEEP = []      # tables whose live column views are the vectors under test (kept alive for the duration of one case)
+
+
+def _declared(decl):
+    from serif.typing import DataType
+    return DataType(KINDS[decl[0]], nullable=bool(decl[1]))
+
+
 def _build_vec(spec):
-    from serif import Vector
+    """`decl` = [kind, nullable]: the dtype is DECLARED (possibly wider than the contents need); `src`: the vector reaches its
+    contents through a history - "warm": it held other elements, was indexed with the very key (and fingerprinted), and was then
+    overwritten in place; "view": it is a live column view of a table; "row": it is the row-displayed twin (`.T`)"""
+    from serif import Vector, Table
     vals = [VALS[i] for i in spec["vals"]]
+    if spec.get("decl"):
+        return Vector(vals, dtype=_declared(spec["decl"]), name=spec.get("name"))
     if not vals and spec.get("dtype"):
         return Vector([], dtype=DTYPES[spec["dtype"]], name=spec.get("name"))
-    return Vector(vals, name=spec.get("name"))
+    src = spec.get("src")
+    if src and src["src"] == "warm" and vals:
+        pre = vals[1:] + vals[:1]
+        v = Vector(pre, name=spec.get("name"))
+        return v            # completed by _exec_vget once the key exists
+    v = Vector(vals, name=spec.get("name"))
+    if src and src["src"] == "view":
+        t = Table([v, Vector(list(range(len(vals))), name="other_")])
+        del _KEEP[:]
+        _KEEP.append(t)
+        if isinstance(t, Table) and len(t.cols()) == 2:
+            return t.cols()[0]
+    if src and src["src"] == "row":
+        return v.T
+    return v
 
 
 def _unjson(x):
@@ -383,12 +522,15 @@ def _build_key(k, v):
         return list(k["es"]), {"t": "list", "es": [_welem(e) for e in k["es"]]}
     if t == "vec":
         es = list(k["es"])
-        if not es and k.get("dtype"):
-            kv = Vector([], dtype=DTYPES[k["dtype"]])
+        if k.get("nullable") and k.get("dtype"):
+            # declared nullable without holding a None: refused like every nullable key, or answered - never a wrong selection
+            kv = Vector(es, dtype=_declared([k["dtype"], True]), name=k.get("name"))
+        elif not es and k.get("dtype"):
+            kv = Vector([], dtype=DTYPES[k["dtype"]], name=k.get("name"))
         elif k.get("dtype") == "bool" and es and not all(type(e) is bool for e in es):
             kv = Vector(es, dtype=bool)            # declared bool, holding ints: truthiness is what the code uses
         else:
-            kv = Vector(es)
+            kv = Vector(es, name=k.get("name"))    # the key's own name must not reach the result
         return kv, {"t": "vec", "dtype": dtype_wire(kv.schema()), "es": [_welem(e) for e in es]}
     if t == "self":
         return v, {"t": "vec", "dtype": dtype_wire(v.schema()), "es": [_welem(e) for e in v]}
@@ -471,6 +613,27 @@ def _exec_vget(spec):
                 wkey = {"t": "vec", "dtype": dtype_wire(key.schema()), "es": [_welem(e) for e in key]}
             except Exception:
                 return {"skip": "warm key could not be prepared"}
+    src = spec.get("src")
+    if src and src["src"] == "warm" and len(v):
+        import warnings as _w
+        with _w.catch_warnings():
+            _w.simplefilter("ignore")
+            try:
+                if src.get("fp"):
+                    v.fingerprint()
+                for _ in range(2):
+                    try:
+                        v[key]
+                    except Exception:
+                        pass
+                final = [VALS[i] for i in spec["vals"]]
+                for rounds in range(2):
+                    for i, e in enumerate(final):
+                        v[i] = e
+            except Exception:
+                return {"skip": "warm source could not be prepared"}
+        if wkey.get("t") == "vec" and spec["key"]["t"] == "self":
+            wkey = {"t": "vec", "dtype": dtype_wire(v.schema()), "es": [_welem(e) for e in v]}
     case = dict(_vecwire(it, v), key=wkey, py=None)
     if spec["key"]["t"] in ("int", "slice"):
         try:
@@ -520,6 +683,8 @@ def _exec_cmp(spec):
     ys = [VALS[i] for i in o["ys"]]
     form = o["t"]
     v = Vector(xs) if xs or not spec.get("xdtype") else Vector([], dtype=DTYPES[spec["xdtype"]])
+    if spec.get("xdecl"):
+        v = Vector(xs, dtype=_declared(spec["xdecl"]), name="x")
     if spec.get("promote"):
         pos, vi = spec["promote"]
         try:
@@ -527,8 +692,12 @@ def _exec_cmp(spec):
         except Exception as e:
             return {"skip": "promotion refused: " + type(e).__name__}
         xs = list(v)                          # the current elements (the remaining dates were converted)
-    refl = form in ("rscalar", "rlist")
-    if form == "vec":
+    refl = form in ("rscalar", "rlist", "rrange")
+    if form in ("range", "rrange"):
+        other, wform = range(len(ys)), "iter"
+        if list(other) != ys:
+            return {"skip": "range operand needs ys = 0..m-1"}
+    elif form == "vec":
         other = Vector(ys) if ys or not spec.get("ydtype") else Vector([], dtype=DTYPES[spec["ydtype"]])
         wform = "vec"
     elif form == "self":
@@ -670,6 +839,18 @@ def _obs_table_result(it, r, key_spec):
     return {"cell": it.uid(r)}
 
 
+def _own_column(t, j):
+    """one of the table's OWN live columns as row key (`t[t.flag]`, `t[t.pos]`)"""
+    cs = t.cols()
+    if not -len(cs) <= j < len(cs):
+        return None, None
+    col = cs[j]
+    cur = list(col)
+    if not cur or not (all(type(x) is bool for x in cur) or all(type(x) is int for x in cur)):
+        return None, None
+    return col, {"t": "vec", "dtype": dtype_wire(col.schema()), "es": [_welem(e) for e in cur]}
+
+
 def _exec_table(spec):
     from serif.naming import _sanitize_user_name
     it = Interner()
@@ -690,7 +871,12 @@ def _exec_table(spec):
             wkey = {"t": "tuple", "items": [i if i["t"] != "other" else {"t": "other"} for i in items]}
             strs = [s for i in items for s in ([i["k"]] if i["t"] == "name" else i["ks"] if i["t"] == "names" else [])]
         else:
-            key, wk = _build_key(k["key"], None)
+            if k["key"]["t"] == "col":
+                key, wk = _own_column(t, k["key"]["j"])
+                if key is None:
+                    return {"skip": "own column is neither a mask nor a position list"}
+            else:
+                key, wk = _build_key(k["key"], None)
             wkey, strs = {"t": "row", "key": wk}, []
         case["key"] = wkey
         case["low"] = [[s, s.lower()] for s in sorted(set(strs))]
@@ -699,7 +885,12 @@ def _exec_table(spec):
         except Exception as e:
             impl = {"err": err_class(e)}
         return {"fam": "tget", "case": case, "impl": impl}
-    rows, wrows = _build_key(spec["rows"], None)
+    if spec["rows"]["t"] == "col":
+        rows, wrows = _own_column(t, spec["rows"]["j"])
+        if rows is None:
+            return {"skip": "own column is neither a mask nor a position list"}
+    else:
+        rows, wrows = _build_key(spec["rows"], None)
     names = tuple(spec["names"])
     case["rows"], case["names"] = wrows, list(names)
     case["low"] = [[s, s.lower()] for s in sorted(set(names))]
@@ -717,6 +908,8 @@ def _exec_table(spec):
 # ------------------------------------------------------------------------------------------------
 
 def _row_scope(k):
+    if k["t"] == "col":
+        return True
     return _in_scope(k) and k["t"] != "tuple" and not (k["t"] == "list" and not all(type(e) is bool for e in k["es"]))
 
 
@@ -845,9 +1038,14 @@ def _key_src(k):
     if t == "vec":
         if not k["es"] and k.get("dtype"):
             return "Vector([], dtype=%s)" % k["dtype"]
-        return "Vector(%r%s)" % (list(k["es"]), ", dtype=bool" if k.get("dtype") == "bool" and not all(type(e) is bool for e in k["es"]) else "")
+        if k.get("nullable"):
+            return "Vector(%r, dtype=DataType(%s, nullable=True))" % (list(k["es"]), k["dtype"])
+        return "Vector(%r%s%s)" % (list(k["es"]), ", dtype=bool" if k.get("dtype") == "bool" and not all(type(e) is bool for e in k["es"]) else "",
+                                   ", name=%r" % k["name"] if k.get("name") else "")
     if t == "self":
         return "v"
+    if t == "col":
+        return "t.cols()[%d]" % k["j"]
     if t == "name":
         return repr(k["k"])
     if t == "names":
@@ -861,6 +1059,20 @@ def snippet(spec):
     if fam == "vget":
         vals = [VALS[i] for i in spec["vals"]]
         ctor = "Vector(%r, name=%r)" % (vals, spec.get("name")) if vals or not spec.get("dtype") else "Vector([], dtype=%s, name=%r)" % (spec["dtype"], spec.get("name"))
+        if spec.get("decl"):
+            ctor = "Vector(%r, dtype=DataType(%s, nullable=%r), name=%r)" % (vals, spec["decl"][0], bool(spec["decl"][1]), spec.get("name"))
+            head += "from serif.typing import DataType\n"
+        if spec.get("src"):
+            how = spec["src"]["src"]
+            if how == "warm" and vals:
+                ctor = ("Vector(%r, name=%r)%s; key = %s; v[key]; v[key]\nfor _ in range(2):\n    for i, e in enumerate(%r): v[i] = e"
+                        % (vals[1:] + vals[:1], spec.get("name"), "; v.fingerprint()" if spec["src"].get("fp") else "", _key_src(spec["key"]), vals))
+            elif how == "view":
+                ctor = "Table([%s, Vector(list(range(%d)), name='other_')]).cols()[0]   # keep the table alive" % (ctor, len(vals))
+            elif how == "row":
+                ctor += ".T"
+        if spec["key"].get("nullable"):
+            head += "from serif.typing import DataType\n"
         return head + f"v = {ctor}\nkey = {_key_src(spec['key'])}\nr = v[key]\nprint(list(r) if isinstance(r, Vector) else r, getattr(r, 'name', None), r.schema() if isinstance(r, Vector) else None)\nprint(list(v)[key] if isinstance(key, (int, slice)) else None)"
     if fam == "slen":
         return "from serif.typeutils import slice_length\ns = slice(%r, %r, %r)\nprint(slice_length(s, %d), len(range(*s.indices(%d))))" % (*spec["s"], spec["n"], spec["n"])
@@ -868,12 +1080,19 @@ def snippet(spec):
         xs = [VALS[i] for i in spec["xs"]]
         ys = [VALS[i] for i in spec["other"]["ys"]]
         form = spec["other"]["t"]
-        o = {"vec": f"Vector({ys!r})", "self": "v", "list": repr(ys), "rlist": repr(ys), "tuple": repr(tuple(ys))}.get(form, repr(ys[0]) if ys else "None")
+        o = {"vec": f"Vector({ys!r})", "self": "v", "list": repr(ys), "rlist": repr(ys), "tuple": repr(tuple(ys)),
+             "range": f"range({len(ys)})", "rrange": f"range({len(ys)})"}.get(form, repr(ys[0]) if ys else "None")
         if spec["op"] == "not":
             return head + f"v = Vector({xs!r})\nr = ~v\nprint(list(r), r.schema())"
         sym = {"eq": "==", "ne": "!=", "lt": "<", "le": "<=", "gt": ">", "ge": ">=", "and": "&", "or": "|", "xor": "^"}[spec["op"]]
-        e = f"{o} {sym} v" if form in ("rscalar", "rlist") else f"v {sym} {o}"
-        return head + f"v = Vector({xs!r})\nr = {e}\nprint(list(r), r.schema())"
+        e = f"{o} {sym} v" if form in ("rscalar", "rlist", "rrange") else f"v {sym} {o}"
+        mk = f"Vector({xs!r})"
+        if spec.get("xdecl"):
+            head += "from serif.typing import DataType\n"
+            mk = f"Vector({xs!r}, dtype=DataType({spec['xdecl'][0]}, nullable={bool(spec['xdecl'][1])}), name='x')"
+        if spec.get("promote"):
+            mk += f"; v[{spec['promote'][0]}] = {VALS[spec['promote'][1]]!r}"
+        return head + f"v = {mk}\nr = {e}\nprint(list(r), r.schema())"
     cols = ", ".join("Vector(%r, name=%r)" % ([VALS[i] for i in c["vals"]], c["name"]) for c in spec["cols"])
     if fam == "tget":
         k = spec["key"]
